@@ -1068,8 +1068,17 @@ func (e *c18Env) cell(p c18Rpc, cr *c18Cred, role, tag string) error {
 		r.OracleChecks++
 		db := strings.TrimPrefix(key, "settings:")
 		if key == c18Sys {
-			if c18SysWriters[p.handler] && valid && (u.sysadmin || c18AnyAdmin(u.perms)) {
+			// administration RPCs that NAME a database (grant/revoke on it, create a user with a permission on it) need
+			// sysadmin or Admin on THAT database; password / status changes need admin rights on some database
+			namesDB := p.handler == "ChangePermission" || p.handler == "ChangeSQLPrivileges" || p.handler == "CreateUser"
+			adminOnNamed := valid && (truth(named) == auth.PermissionAdmin || truth(named) == auth.PermissionSysAdmin)
+			if c18SysWriters[p.handler] && valid && (u.sysadmin || (namesDB && adminOnNamed) || (!namesDB && c18AnyAdmin(u.perms))) {
 				r.Count("effect.systemdb-changed-by-admin-rpc")
+				continue
+			}
+			if c18SysWriters[p.handler] && valid && namesDB && !adminOnNamed {
+				r.Fail(sig("C18:"+p.handler+":administers-database-without-admin-on-it"),
+					fmt.Sprintf("%s on database %q changed the user records although the caller (role %s) is neither sysadmin nor Admin on %q", p.handler, named, role, named), rp())
 				continue
 			}
 			s := "C18:" + p.handler + ":systemdb-changed"
